@@ -1,5 +1,6 @@
 """C15 — driver, latch and read-before-assign checks are exact."""
 from vlib import *
+from checks.c15c16_shrink import shrink as structural_shrink
 
 LEVEL = "proof"
 THEOREMS = ["multi_eq_reference", "multi_assign_exact", "uncovered_local_exact", "uncovered_local_exact_case",
@@ -53,6 +54,25 @@ WITNESSES = [
 ]
 
 
+def run_model_retry(domain, out_dir, dst="model.txt", tries=3):
+    for _ in range(tries):
+        rc, err = run_model(domain, out_dir, dst=dst)
+        if rc >= 0:
+            break
+    return rc, err
+
+
+def run_hx_retry(ctx, domain, args, out_dir=None, timeout=3600, tries=3):
+    """`run_hx`, repeated if the process was killed by a signal (the machine is shared: other jobs
+    occasionally `pkill hx`); a deterministic failure fails every time."""
+    for k in range(tries):
+        rc, out, d = run_hx(ctx, domain, args, out_dir=out_dir, timeout=timeout)
+        if rc >= 0 and rc != 143 and rc != 137:
+            return rc, out, d
+        ctx.log(f"hx {domain} was killed by a signal (rc={rc}); retry {k + 1}")
+    return rc, out, d
+
+
 def parse_set(s):
     s = s.strip()
     if not (s.startswith("[") and s.endswith("]")):
@@ -81,11 +101,11 @@ def run_lines(ctx, lines, tag):
     os.makedirs(d, exist_ok=True)
     with open(f"{d}/replay.txt", "w") as fh:
         fh.write("\n".join(lines) + "\n")
-    rc, out, _ = run_hx(ctx, "assign", ["--replay", f"{d}/replay.txt"], out_dir=d, timeout=600)
+    rc, out, _ = run_hx_retry(ctx, "assign", ["--replay", f"{d}/replay.txt"], out_dir=d, timeout=600)
     if rc != 0:
         return None
-    run_model("assign", d)
-    run_model("assignref", d, dst="ref.txt")
+    run_model_retry("assign", d)
+    run_model_retry("assignref", d, dst="ref.txt")
     return d
 
 
@@ -108,19 +128,8 @@ def keys_of_class(c):
 
 
 def shrink_procs(ctx, line, fails):
-    op, vars_, procs = line.split(" ")
-    parts = procs.split(";")
-    changed = True
-    while changed and len(parts) > 1:
-        changed = False
-        for i in range(len(parts)):
-            cand = parts[:i] + parts[i + 1:]
-            l = f"{op} {vars_} {';'.join(cand)}"
-            if fails(l):
-                parts = cand
-                changed = True
-                break
-    return f"{op} {vars_} {';'.join(parts)}"
+    """Structural shrinking (processes, statements, branches, reads) while the failure persists."""
+    return structural_shrink(line, fails, "assign")
 
 
 def line_state(ctx, line):
@@ -183,13 +192,13 @@ def run(ctx):
                                "replay": f"{HX} assign --replay <file with the line>"}, key=key, kind="impl!=oracle")
     # 2. generated designs ------------------------------------------------------------------------
     n = tier_n(ctx, 2500, 60000)
-    rc, out, d = run_hx(ctx, "assign", ["--seed", ctx.seed, "--n", n], timeout=7200)
+    rc, out, d = run_hx_retry(ctx, "assign", ["--seed", ctx.seed, "--n", n], timeout=7200)
     if rc != 0:
         ctx.violation(f"harness domain assign crashed (rc={rc})", {"kind": "harness-crash", "log": out[-4000:]},
                       no_input=True, kind="model!=impl")
         return
-    run_model("assign", d)
-    run_model("assignref", d, dst="ref.txt")
+    run_model_retry("assign", d)
+    run_model_retry("assignref", d, dst="ref.txt")
     stats = load_stats(d)
     ops = read_lines(f"{d}/ops.txt") or []
     imp = read_lines(f"{d}/impl.txt") or []
